@@ -146,8 +146,8 @@ Qed.
 Lemma inv_remove cfg s c : inv cfg s -> inv cfg (set_allocs s (remove_alloc c (allocs s))).
 Proof. intros [Hnd Hall]. split; cbn; [apply remove_alloc_nodup|apply Forall_remove_alloc]; assumption. Qed.
 
-Lemma h_allocate_inv cfg s src tid uid realm tr lt fam df rp s' acts :
-  inv cfg s -> h_allocate cfg s src tid uid realm tr lt fam df rp = (s', acts) -> inv cfg s'.
+Lemma h_allocate_inv cfg s src tid uid realm tr lt fam df rp ep rt mt s' acts :
+  inv cfg s -> h_allocate cfg s src tid uid realm tr lt fam df rp ep rt mt = (s', acts) -> inv cfg s'.
 Proof.
   intros Hinv H. unfold h_allocate in H.
   destruct (find_alloc src (allocs s)) as [a|] eqn:Hf.
